@@ -15,7 +15,36 @@ def gen_case(rng, cid, mode):
     return {"id": cid, "script": sc, "arg": 0, "handlers": hs}
 
 
+def run_mech(out, tier, seed):
+    """PteraMech |= PteraAbs for the catalogue selectors of this kind; every TLC history replayed in the real code"""
+    from .. import core, mechcheck as M
+    cases, sigs = M.explore(out, "imm", 6 if tier == "quick" else 8, 4)
+    for sid, w in sigs.items():
+        # a model-level disagreement between mechanism and A level: judged through its replay below; recorded here
+        out.extra.setdefault("mech_signatures", {})[str(sid)] = w
+    if not cases:
+        return
+    for i, c in enumerate(cases):
+        c["id"] = 10_000_000 + i
+    work = core.scratch("c03m-")
+    n = (len(cases) + 11) // 12
+    batches = [("overlay", cases[i:i + n]) for i in range(0, len(cases), n)]
+    traces = W.run_cases(batches, work, par=12)
+    fails, results = W.validate(traces, work)
+    for i, r in enumerate(results):
+        out.add_tlc(f"TracePtera[mech-replay {i}]", r)
+    out.traces += len(traces)
+    by = {c["id"]: c for c in cases}
+    W.judge(out, traces, fails, lambda tid: {"mode": "overlay", **by[tid]})
+    replay_failed = {by[t]["sid"] for t in fails}
+    for sid in sigs:
+        if sid not in replay_failed:
+            out.drift.append(f"PteraMech signature for selector {sid} did not reproduce in the real code")
+    out.extra["mech_histories_replayed"] = len(cases)
+
+
 def run(out, tier, seed):
+    run_mech(out, tier, seed)
     P.run_world(out, tier, seed, gen_case, PLAN, salt=3,
                 rule="random call trees over f,g,h (depth<=5, recursion, loops, catches) x 4 focused selectors each "
                      "(focus path<=4, off-path kids, aliases), overlay mode and probing() mode; every delivery compared, "
